@@ -5,12 +5,14 @@ package internal
 
 import (
 	"bufio"
+	"bytes"
 	"encoding/json"
 	"fmt"
 	"math/rand"
 	"net/url"
 	"os"
 	"sort"
+	"sync"
 	"testing"
 
 	"github.com/zeromicro/go-zero/core/discov"
@@ -68,8 +70,8 @@ func TestVerifC13(t *testing.T) {
 	if err != nil {
 		t.Fatal(err)
 	}
-	var cases []verifC13Case
-	if err := json.Unmarshal(data, &cases); err != nil {
+	var raws []json.RawMessage
+	if err := json.Unmarshal(data, &raws); err != nil {
 		t.Fatal(err)
 	}
 	f, err := os.Create(out)
@@ -80,17 +82,99 @@ func TestVerifC13(t *testing.T) {
 	w := bufio.NewWriterSize(f, 1<<20)
 	defer w.Flush()
 
-	for _, cs := range cases {
+	results := make([][]byte, len(raws))
+	var wg sync.WaitGroup
+	sem := make(chan struct{}, 8)
+	for i, raw := range raws {
+		var cs verifC13Case
+		if err := json.Unmarshal(raw, &cs); err != nil {
+			t.Fatal(err)
+		}
+		if cs.Kind == "cluster" {
+			// the real cluster on the fake etcd, with resolvers built by discovBuilder / etcdBuilder
+			var cc discov.VerifClusterCase
+			if err := json.Unmarshal(raw, &cc); err != nil {
+				t.Fatal(err)
+			}
+			wg.Add(1)
+			sem <- struct{}{}
+			go func(i int, cc discov.VerifClusterCase) {
+				defer wg.Done()
+				defer func() { <-sem }()
+				results[i], _ = json.Marshal(discov.VerifRunCluster(cc, verifC13ResHook(cc.ID)))
+			}(i, cc)
+			continue
+		}
 		func() {
+			var buf bytes.Buffer
+			bw := bufio.NewWriter(&buf)
 			defer func() {
 				if r := recover(); r != nil {
-					b, _ := json.Marshal(map[string]any{"id": cs.ID, "panic": fmt.Sprint(r)})
-					w.Write(b)
-					w.WriteByte('\n')
+					results[i], _ = json.Marshal(map[string]any{"id": cs.ID, "panic": fmt.Sprint(r)})
+					return
 				}
+				bw.Flush()
+				results[i] = bytes.TrimSpace(buf.Bytes())
 			}()
-			verifC13Run(t, cs, w)
+			verifC13Run(t, cs, bw)
 		}()
+	}
+	wg.Wait()
+	for _, r := range results {
+		w.Write(r)
+		w.WriteByte('\n')
+	}
+}
+
+type verifC13LockedCC struct {
+	mockClientConn
+	mu   *sync.Mutex
+	pubs *[][]string
+}
+
+func (c verifC13LockedCC) UpdateState(s resolver.State) error {
+	l := []string{}
+	for _, a := range s.Addresses {
+		l = append(l, a.Addr)
+	}
+	c.mu.Lock()
+	*c.pubs = append(*c.pubs, l)
+	c.mu.Unlock()
+	return nil
+}
+
+// verifC13ResHook: a resolver built by discovBuilder.Build (odd case ids: through etcdBuilder,
+// which embeds it) on <scheme>://host/key; what it publishes and its subscriber's Values().
+func verifC13ResHook(id int) discov.VerifResHook {
+	return func(host, key string) (func() []string, func() [][]string, func(), error) {
+		scheme := DiscovScheme
+		var b resolver.Builder = &discovBuilder{}
+		if id%2 == 1 {
+			scheme = EtcdScheme
+			b = &etcdBuilder{}
+		}
+		if b.Scheme() != scheme {
+			return nil, nil, nil, fmt.Errorf("scheme %s", b.Scheme())
+		}
+		u, err := url.Parse(fmt.Sprintf("%s://%s/%s", scheme, host, key))
+		if err != nil {
+			return nil, nil, nil, err
+		}
+		var mu sync.Mutex
+		var pubs [][]string
+		r, err := b.Build(resolver.Target{URL: *u}, verifC13LockedCC{mu: &mu, pubs: &pubs}, resolver.BuildOptions{})
+		if err != nil {
+			return nil, nil, nil, err
+		}
+		sub := r.(*discovResolver).sub
+		take := func() [][]string {
+			mu.Lock()
+			defer mu.Unlock()
+			p := pubs
+			pubs = nil
+			return p
+		}
+		return sub.Values, take, r.Close, nil
 	}
 }
 
